@@ -344,6 +344,9 @@ fn c06_client(case: &Case) {
     if scenario == 2 {
         return c06_timeout_race(case, listener, addr);
     }
+    if simkernel::choose(8) == 0 {
+        return c06_stall_then_silent(case, listener, addr);
+    }
     case.sample(json!({"scenario": "connection-fault", "in_flight": n_inflight, "kill": format!("{kill:?}"),
         "server_reads": read_first, "server_answers": answer_first, "per_call_timeouts": with_timeouts}));
 
@@ -560,6 +563,54 @@ fn c06_timeout_race(case: &Case, listener: TcpListener, addr: std::net::SocketAd
     drop(client);
     server.join().ok();
     case.nontrivial();
+}
+
+/// A misbehaving peer: it does not read for longer than the call's timeout, then drains
+/// everything and never answers. A call with a timeout must still return (its write may
+/// legitimately wait out the stall), nothing stays pending, later calls return too.
+fn c06_stall_then_silent(case: &Case, listener: TcpListener, addr: std::net::SocketAddr) {
+    let stall_ms = pick(&[20u64, 200, 1_500]);
+    let timeout_ms = pick(&[5u64, 50, 150]);
+    let size = pick(&[10usize, 5_000, 200_000]);
+    case.sample(json!({"scenario": "stall-then-silent", "peer_reads_after_ms": stall_ms, "call_timeout_ms": timeout_ms, "request_bytes": size}));
+    net::set_config(NetConfig { capacity: pick(&[1024usize, 65_536]), lat_min: 0, lat_max: 10_000, max_segment: 0 });
+    let server = thread::spawn(move || {
+        let Ok((mut s, _)) = listener.accept() else { return };
+        thread::sleep(Duration::from_millis(stall_ms));
+        simkernel::count("fault.stall_reader");
+        s.set_read_timeout(Some(Duration::from_millis(3_000))).ok();
+        let mut buf = vec![0u8; 1 << 16];
+        loop {
+            match std::io::Read::read(&mut s, &mut buf) {
+                Ok(0) => return,
+                Ok(_) => {}
+                Err(e) if e.kind() == ErrorKind::Interrupted => {}
+                Err(_) => return,
+            }
+        }
+    });
+    let client = match Client::connect(addr) {
+        Ok(c) => c,
+        Err(e) => {
+            case.harness_error(format!("connect failed: {e}"));
+            return;
+        }
+    };
+    let body = pattern(1, size);
+    let t0 = simkernel::now_ns();
+    let r = client.call_with_formats_and_timeout("/never-answered", 1, Some(&body), 0, Duration::from_millis(timeout_ms));
+    let took_ms = (simkernel::now_ns() - t0) / MS;
+    case.check(r.is_err(), "ok-without-response", || "a call the peer never answered returned Ok".into());
+    case.check(took_ms <= stall_ms + timeout_ms + 1_000, "call-outlived-its-timeout", || {
+        format!("call with a {timeout_ms} ms timeout returned after {took_ms} ms (the peer started reading after {stall_ms} ms and never answered)")
+    });
+    let r2 = client.call_json_with_timeout("/also-never", &json!({"x": 1}), Duration::from_millis(timeout_ms));
+    case.check(r2.is_err(), "ok-without-response", || "a second call the peer never answered returned Ok".into());
+    case.check(client.verif_pending_len() == 0, "pending-residue", || format!("{} pending entries after timed-out calls", client.verif_pending_len()));
+    drop(client);
+    server.join().ok();
+    case.nontrivial();
+    case.probe("timeout_expired_while_peer_stalled");
 }
 
 // =========================================================================== C05
